@@ -39,8 +39,7 @@ ASSUMPTIONS = [
     "a File input names a file: precondition of every real caller)",
     "S = Any at top level is out of scope (Any is unchecked by design)",
     "the runtime converter is the one make_converter builds for a field (superclass_auto_cast=True)",
-    "L2 uses the debug worker; L2 values keep dict keys / set elements mutually orderable (pydra's "
-    "hashing sorts them and refuses mixed kinds by design, see C08)",
+    "L2 uses the debug worker",
 ]
 SHARDS = {"quick": 16, "thorough": 16}
 WALL = {"quick": 400, "thorough": 1500}  # ~25-40 s on an idle 16-core machine; import-bound under load
